@@ -33,6 +33,17 @@ theorem c06_snapshot_partial (t0 : State) (s : St) (h : Reach t0 s) (hd : s.dirt
   rw [hs]
   exact c06_converges_partial t0 s h hd ⟨⟨l, hm⟩, hch, hp⟩ hc
 
+/-- **(c).** While the supervisor runs (no silent store: only Shutdown's post-Stop stores are silent) the entry
+carried by the most recent snapshot is the cache entry, at every moment — every change of the cache is made together
+with a broadcast (repaired code: findings C06-F3, C06-F4).  With (a): at rest the last snapshot carries the runnable's
+true state, whether or not this runnable's monitor ever broadcast. -/
+theorem c06_snapshot (t0 : State) (s : St) (h : Reach t0 s) (hs : s.silent = false) : s.snap = s.cache :=
+  snap_eq_cache h hs
+
+theorem c06_snapshot_at_rest (t0 : State) (s : St) (h : Reach t0 s) (hs : s.silent = false) (hd : s.dirty = false)
+    (hq : Quiescent s) (hc : s.cache.isSome = true) : s.snap = some s.tru := by
+  rw [c06_snapshot t0 s h hs]; exact c06_converges_partial t0 s h hd hq hc
+
 /-- **(d).** A received state equal to the previous one causes no store and no snapshot; a different
 one causes exactly one. -/
 theorem c06_dedup (s s' : St) (last : Option State) (x : State) (rest : List State)
@@ -48,12 +59,12 @@ theorem c06_dedup (s s' : St) (last : Option State) (x : State) (rest : List Sta
 only then does the monitor subscribe; the pinned code discards the current value `1` and keeps
 `lastState = 0`: at rest the cache says `0` while the runnable is in `1`, for ever. -/
 theorem c06_f1_pinned_late_subscription :
-    ∃ s, runPinned { tru := 0 } [.wRead, .wStore 0, .change 1, .subscribe, .monFirst] = some s
+    ∃ s, runPinned { tru := 0 } [.wRead, .wStoreB 0, .change 1, .subscribe, .monFirst] = some s
       ∧ Quiescent s ∧ s.cache = some 0 ∧ s.tru = 1 ∧ s.dirty = false :=
   ⟨_, rfl, ⟨⟨_, rfl⟩, rfl, rfl⟩, rfl, rfl, rfl⟩
 
 /-- the same history on the repaired code ends with the cache equal to the true state -/
-example : ∃ s, run { tru := 0 } [.wRead, .wStore 0, .change 1, .subscribe, .monFirst] = some s
+example : ∃ s, run { tru := 0 } [.wRead, .wStoreB 0, .change 1, .subscribe, .monFirst] = some s
     ∧ Quiescent s ∧ s.cache = some 1 ∧ s.tru = 1 ∧ s.bcasts = 1 :=
   ⟨_, rfl, ⟨⟨_, rfl⟩, rfl, rfl⟩, rfl, rfl, rfl⟩
 
@@ -62,15 +73,15 @@ monitor records it, then the writer stores its `0`. -/
 theorem c06_stale_store :
     ∃ s, Reach 0 s ∧ Quiescent s ∧ s.cache = some 0 ∧ s.tru = 1 := by
   refine ⟨_, reach_of_run (.init)
-    (as := [.wRead, .wStore 0, .subscribe, .monFirst, .wRead, .change 1, .monRecv, .wStore 0]) rfl, ?_, rfl, rfl⟩
+    (as := [.wRead, .wStoreB 0, .subscribe, .monFirst, .wRead, .change 1, .monRecv, .wStoreB 0]) rfl, ?_, rfl, rfl⟩
   exact ⟨⟨_, rfl⟩, rfl, rfl⟩
 
 /-- the hypotheses of the partial theorems are satisfiable by a non-trivial run: launch store,
 subscription, two changes with a duplicate emission, a post-reload store, all processed -/
 example : ∃ s, Reach 0 s ∧ s.dirty = false ∧ Quiescent s ∧ s.cache = some 2 ∧ s.bcasts = 2 := by
   refine ⟨_, reach_of_run (.init)
-    (as := [.subscribe, .wRead, .wStore 0, .monFirst, .change 1, .emitDup, .change 2, .monRecv, .monRecv, .monRecv,
-            .wRead, .wStore 0]) rfl, rfl, ⟨⟨_, rfl⟩, rfl, rfl⟩, rfl, rfl⟩
+    (as := [.subscribe, .wRead, .wStoreB 0, .monFirst, .change 1, .emitDup, .change 2, .monRecv, .monRecv, .monRecv,
+            .wRead, .wStoreB 0]) rfl, rfl, ⟨⟨_, rfl⟩, rfl, rfl⟩, rfl, rfl⟩
 
 /-- **(b).** Once the monitor has exited (the supervisor's context is cancelled), only a writer's store
 changes the cache entry — and the last writer is `Shutdown`, which re-stores the state it read
